@@ -98,6 +98,26 @@ def build(b, extra_gm=None):
     if extra_gm is not None:
         data["granular_markings"] = list(data.get("granular_markings", [])) + [extra_gm]
     how = b["how"]
+    # the same container INSTANCE at two places (a Python caller may well build an object that way)
+    for src, dst, as_obj in b.get("share", []):
+        try:
+            node = data
+            for k in src[:-1]:
+                node = node[k]
+            val = node[src[-1]]
+            if as_obj and how == "class":
+                mod = v21 if b["version"] == "2.1" else v20
+                val = getattr(mod, as_obj)(**val)
+                node[src[-1]] = val
+            node = data
+            for k in dst[:-1]:
+                node = node[k]
+            if isinstance(node, list) and dst[-1] == len(node):
+                node.append(val)
+            else:
+                node[dst[-1]] = val
+        except (KeyError, IndexError, TypeError):
+            pass
     if how == "dict":
         return data
     if how == "parse":
@@ -244,6 +264,17 @@ def run_c08(obj, case):
             "set": (lambda: M.set_markings(obj, red, sel), lambda: obj.set_markings(red, sel)),
         }
         for name, (fn, meth) in fns.items():
+            a = outcome(fn)
+            if is_obj:
+                b = outcome(meth)
+                if a != b:
+                    a = "fn=%s/method=%s" % (a, b)
+            r[name] = a
+        omr0 = obj.get("object_marking_refs") if "object_marking_refs" in obj else None
+        m0 = omr0[0] if omr0 else None
+        for name, fn, meth in (
+                ("is_marked_inh", lambda: M.is_marked(obj, m0, sel, True, True), lambda: obj.is_marked(m0, sel, True, True)),
+                ("get_inh", lambda: M.get_markings(obj, sel, True, True), lambda: obj.get_markings(sel, True, True))):
             a = outcome(fn)
             if is_obj:
                 b = outcome(meth)
